@@ -643,7 +643,7 @@ func c14Process(in c14Input, tags []string) *c14Case {
 
 func c14AsciiOK(s string) bool {
 	for _, r := range s {
-		if r > 126 || (r < 32 && r != '\n' && r != '\t') {
+		if r > 126 || (r < 32 && r != '\n' && r != '\t' && r != '\r' && r != '\f') {
 			return false
 		}
 	}
@@ -821,7 +821,8 @@ func (g *c14Gen) fname(name string) string {
 	}
 	if g.p(22) {
 		g.tags["spaced-call"] = true
-		name += g.pick(" ", " ", "  ", "\n", "\t", "/**/", " /* c */ ", " -- c\n", "/* ( */ ")
+		// every kind of white space SQLite's tokenizer accepts between a name and its parenthesis (space, \t, \n, \r, \f), and comments
+		name += g.pick(" ", " ", "  ", "\n", "\t", "\r", "\f", "\r\n", " \f\t", "\n\r ", "/**/", " /* c */ ", " -- c\n", "/* ( */ ", "\r/* c */\f", " -- c\r\n")
 	}
 	return name
 }
@@ -1176,6 +1177,8 @@ var c14Corpus = []string{
 	`INSERT INTO t(a) VALUES (datetime ('now'))`, `INSERT INTO t(a) VALUES (random ())`, `INSERT INTO t(a) VALUES (hex(randomblob (4)))`,
 	`INSERT INTO t(a) VALUES (unixepoch('subsec'))`, `INSERT INTO t(a) VALUES (strftime('%f', 'subsecond'))`,
 	`INSERT INTO t(a) VALUES ("random"())`, "INSERT INTO t(a) VALUES (random/**/())", "INSERT INTO t(a) VALUES (julianday -- x\n ('now'))",
+	// every white space character between the name and the parenthesis
+	"INSERT INTO t(a) VALUES (random\r\n())", "INSERT INTO t(a) VALUES (strftime\f('%f','now'))", "INSERT INTO t(a, b) VALUES (julianday\r('now'), hex(randomblob\f\t(4)))",
 	// positions sql.Walk does not reach
 	`INSERT INTO t(a) VALUES ((SELECT random()))`, `WITH k(v) AS (SELECT random()) INSERT INTO t(a) SELECT v FROM k`,
 	`WITH k(v) AS (SELECT julianday('now')) INSERT INTO t(a) SELECT v FROM k`, `INSERT INTO t(a) VALUES (random() ISNULL)`,
